@@ -152,18 +152,18 @@ func catalogue(in *ipsetInput, r *rand.Rand) []placement {
 	add := func(name string, off4, m4, off6, m6 int) {
 		out = append(out, placement{Name: name, Off4: off4, Base4: baseBytes(4, m4, r), Off6: off6, Base6: baseBytes(16, m6, r)})
 	}
-	add("top(/0..)", 0, 2, 0, 2)                               // /0 and the top of both spaces
-	add("bottom(../32,/128)", 32-v4, 2, 128-w6, 2)             // /32, /128 edges
-	add("bottom-zeros", 32-v4, 0, 128-w6, 0)                   // lo-1 runs off the bottom of the space
-	add("bottom-ones", 32-v4, 1, 128-w6, 1)                    // hi+1 runs off the top of the space
-	add("straddle64", 16-v4/2, 2, 64-w6/2, 2)                  // window crosses the u128 word boundary
-	add("straddle64-ones", 16-v4/2, 1, 64-w6/2, 1)             //   with carries into the high word
-	add("straddle64-zeros", 16-v4/2, 0, 64-w6/2, 0)            //
-	add("ends-at-64", 8, 2, 64-w6, 2)                          // prefixes /(64-W)../64
-	add("starts-at-64", 24-v4, 2, 64, 2)                       // prefixes /64../(64+W)
-	add("off63", 7, 2, 63, 2)                                  //
-	add("off1", 1, 2, 1, 2)                                    //
-	add("low-word", 20, 2, 100, 2)                             //
+	add("top(/0..)", 0, 2, 0, 2)                    // /0 and the top of both spaces
+	add("bottom(../32,/128)", 32-v4, 2, 128-w6, 2)  // /32, /128 edges
+	add("bottom-zeros", 32-v4, 0, 128-w6, 0)        // lo-1 runs off the bottom of the space
+	add("bottom-ones", 32-v4, 1, 128-w6, 1)         // hi+1 runs off the top of the space
+	add("straddle64", 16-v4/2, 2, 64-w6/2, 2)       // window crosses the u128 word boundary
+	add("straddle64-ones", 16-v4/2, 1, 64-w6/2, 1)  //   with carries into the high word
+	add("straddle64-zeros", 16-v4/2, 0, 64-w6/2, 0) //
+	add("ends-at-64", 8, 2, 64-w6, 2)               // prefixes /(64-W)../64
+	add("starts-at-64", 24-v4, 2, 64, 2)            // prefixes /64../(64+W)
+	add("off63", 7, 2, 63, 2)                       //
+	add("off1", 1, 2, 1, 2)                         //
+	add("low-word", 20, 2, 100, 2)                  //
 	// the model's IPv4-mapped block laid exactly over ::ffff:0:0/96 (needs MapPat = all ones)
 	hiBits := w6 - v4
 	if in.MapPat == (1<<uint(hiBits))-1 && hiBits <= 16 {
